@@ -23,6 +23,7 @@ func checkC05(c *Ctx) {
 	}, 15)
 	r := c.R
 	r.Decides = append(r.Decides,
+		"K14 no decoder method rewrites what it has decoded through a step that sees none of the input (a call after the first read that receives the receiver or a value loaded from it, nothing derived from the input, and writes memory reachable from it: de-duplicating, sorting, trimming a decoded list)",
 		"K1 exact tiling: every decoder of dhcpv6/iana/rfc1035label returns a nil error only via (a) FinError() of a Lexer over its whole parameter, (b) an explicit len(p)==c guard, (c) wholesale use of the parameter, (d) delegation of the whole parameter or of the whole remainder to a decoder that itself satisfies K1, with its error propagated, or (e) a ledgered index-driven decoder (labels); reasoned exception: OptDHCPv4Msg delegates to dhcpv4.FromBytes (C04)",
 		"K2 nested containers hand the entire remainder (ReadAll/Data) to the nested list parser (part of K1-d) ",
 		"K3 option TLV loop: for Has(4), two 16-bit reads, Consume(length), the parser's error returned, FinError after the loop",
@@ -77,6 +78,7 @@ func checkC05(c *Ctx) {
 	// the message under construction is filled by the decoder itself only (shared with C04-K9)
 	decoderKeepsResult(c, "C05-K12", c.P.Func(modPath+"/dhcpv6.MessageFromBytes"))
 	decoderKeepsResult(c, "C05-K12", c.P.Func(modPath+"/dhcpv6.RelayMessageFromBytes"))
+	decoderPostProcessing(c, "C05-K14")
 }
 
 // tilingSet: the functions judged by the tiling rule (delegation targets must be in it)
